@@ -123,6 +123,7 @@ class Array:
                 self.files.append(('d%d/f%02d' % (d, k), sz))
                 blocks += (sz + 1023) // 1024
                 k += 1
+            self.nblocks = max(getattr(self, 'nblocks', 0), blocks)
         names = ['parity', '2-parity', '3-parity', '4-parity', '5-parity', '6-parity']
         conf = 'blocksize 1\n'
         for l in range(np_):
@@ -286,6 +287,41 @@ def oracle(sess):
 
 # ------------------------------------------------------------------------------------------------
 
+def cross_session(sessions, complete_expected):
+    """one process, several ring sessions back to back (autosave: io_stop, save, io_start at the next block): every
+    enabled position of the first session is handed to the caller and passed to io_write_next exactly once and in
+    order ACROSS the sessions; each later session starts right after the last position processed"""
+    probs = []
+    if not sessions:
+        return probs
+    full, bmax, W = sessions[0]['poss'], sessions[0]['bmax'], sessions[0]['W']
+    handed, wn = [], []
+    complete = False
+    for i, s in enumerate(sessions):
+        if i > 0:
+            exp = [p for p in full if not handed or p > handed[-1]]
+            if s['poss'] != exp:
+                probs.append('session %d is started on positions %s..., expected the positions after %s: %s...' % (i + 1, s['poss'][:6], handed[-1:] or None, exp[:6]))
+        complete = False
+        for actor, kind, slot, pos in s['events']:
+            if actor == 'C' and kind == 'read_next':
+                if pos < bmax:
+                    handed.append(pos)
+                else:
+                    complete = True
+            elif actor == 'C' and kind in ('write_next', 'write_skip'):
+                wn.append(pos)
+    for nm, got in (('handed to the caller', handed),) + ((('passed to io_write_next', wn),) if W > 0 else ()):
+        if got != full[:len(got)]:
+            k = next(i for i in range(len(got)) if i >= len(full) or got[i] != full[i])
+            probs.append('over %d sessions the positions %s are %s..., not the enabled positions %s... in order (a stripe lost or repeated at a restart)' % (len(sessions), nm, got[max(0, k - 2):k + 3], full[max(0, k - 2):k + 3]))
+        elif complete and complete_expected and got != full:
+            probs.append('over %d sessions only %d of the %d enabled positions were %s' % (len(sessions), len(got), len(full), nm))
+    if complete_expected and not complete:
+        probs.append('the last session does not reach the end of the range')
+    return probs
+
+
 def hook_present(snap):
     try:
         return 'verif_io_event' in open(os.path.join(snap, 'cmdline', 'io.c'), errors='replace').read()
@@ -306,20 +342,24 @@ def trace_runs(chk, tool, model, arrays, caches, seeds, with_sigint):
                 arr.fresh()
                 steps = [('sync', ['sync']), ('mutate', None), ('sync2', ['sync']), ('scrub_full', ['scrub', '-p', 'full']),
                          ('scrub_part', ['scrub', '-p', '40', '-o', '0'])]
+                ks = [1, max(1, arr.nblocks // 2), max(1, arr.nblocks - 1)]
+                ksel = ks[(seed + cache) % 3]
+                steps.insert(0, ('sync_autosave', ['sync']))
                 if with_sigint and seed == seeds[0]:
                     steps.insert(0, ('sync_sigint', ['sync']))
                 for name, cmd in steps:
                     if cmd is None:
                         arr.mutate()
                         continue
+                    opts = ['--test-force-autosave-at', str(ksel)] if name == 'sync_autosave' else []
                     if os.path.exists(tracep):
                         os.remove(tracep)
                     env = {'SNAPRAID_VERIF_TRACE': tracep, 'SNAPRAID_VERIF_YIELD': str(seed * 131 + cache)}
                     sig = None
                     if name == 'sync_sigint':
                         sig = 0.004 + 0.003 * chk.rng.random()
-                    rc, out, tags = run_tool(tool, arr, cache, cmd, env, timeout=30, sigint_after=sig, log=False)
-                    descr = {'array': {'nd': arr.nd, 'np': arr.np, 'seed': arr.seed}, 'step': name, 'cmd': cmd, 'io_cache': cache,
+                    rc, out, tags = run_tool(tool, arr, cache, cmd, env, timeout=30, sigint_after=sig, log=False, opts=opts)
+                    descr = {'array': {'nd': arr.nd, 'np': arr.np, 'seed': arr.seed}, 'step': name, 'cmd': opts + cmd, 'io_cache': cache,
                              'yield_seed': seed * 131 + cache}
                     stats['runs'] += 1
                     if rc == 'timeout':
@@ -330,6 +370,10 @@ def trace_runs(chk, tool, model, arrays, caches, seeds, with_sigint):
                         return stats        # a hang is decisive, and every further run would cost another timeout
                     if name == 'sync_sigint':
                         arr.fresh()         # whatever happened, restart from the template
+                    elif name == 'sync_autosave':
+                        arr.fresh()
+                        if rc != 0:
+                            chk.violation('rc_%s_n%d_s%d' % (name, cache, seed), 'snapraid %s with --test-io-cache %d exits with %s' % (' '.join(opts + cmd), cache, rc), dict(descr, output=out[-3000:]))
                     elif rc not in (0,) and not (name in ('sync2', 'scrub_full', 'scrub_part') and rc == 1):
                         chk.violation('rc_%s_n%d_s%d' % (name, cache, seed),
                                       'snapraid %s with --test-io-cache %d exits with %s under schedule seed %d: %s' % (' '.join(cmd), cache, rc, seed, out.strip().split('\n')[-1][:200]),
@@ -343,6 +387,13 @@ def trace_runs(chk, tool, model, arrays, caches, seeds, with_sigint):
                     except c13_trace.TraceError as e:
                         chk.violation('trace_%s_n%d' % (name, cache), 'MODEL-DRIFT: unreadable hook trace: %s' % e, descr, no_input=True)
                         continue
+                    if len(sessions) > 1:
+                        stats['multi_session_traces'] = stats.get('multi_session_traces', 0) + 1
+                    if name == 'sync_autosave' and len(sessions) < 2:
+                        chk.violation('autosave_%s_n%d' % (name, cache), 'MODEL-DRIFT: sync --test-force-autosave-at %d ran %d ring session(s); the check expects a stop/start at the autosave' % (ksel, len(sessions)), descr, no_input=True)
+                    for pr in cross_session(sessions, name != 'sync_sigint')[:1]:
+                        chk.violation('order_%s_n%d_s%d' % (name, cache, seed), 'io.c/sync.c: %s (snapraid %s, --test-io-cache %d, schedule seed %d)' % (pr, ' '.join(opts + cmd), cache, seed * 131 + cache),
+                                      dict(descr, sessions=[{'poss': x['poss'], 'events': len(x['events'])} for x in sessions]))
                     for s in sessions:
                         items.append((descr, s))
     # replay with the extracted model
@@ -676,6 +727,44 @@ def diff_scrub_cross(chk, tool, shim, base, rng, caches=(1, 3, 8, 128)):
     return stats
 
 
+def diff_autosave(chk, tool, shim, arr, caches=(1, 3, 8, 128)):
+    """sync with a forced autosave (io_stop, save, io_start at the next block) at the first / a middle / the last
+    stripe: parity, content and tags identical to the mono run with the same autosave and to the run without autosave"""
+    stats = {'variants': 0}
+    env0 = {'LD_PRELOAD': shim} if shim else {}
+    arr.fresh()
+    pdir = os.path.join(arr.work, 'p')
+    rc, out, tags = run_tool(tool, arr, 1, ['sync'], env0)
+    base_ = (rc, [t for t in tags if t.startswith(('error:', 'summary:'))], arr.snapshot())
+    ks = sorted(set([1, max(1, arr.nblocks // 2), max(1, arr.nblocks - 1)]))
+    for k in ks:
+        ref = None
+        for cache in caches:
+            for mname, menv in [('plain', {})] + ([('yield%d' % y, {'SNAPRAID_VERIF_YIELD': str(y)}) for y in (1, 2)] if cache > 1 else []):
+                shutil.rmtree(pdir)
+                os.makedirs(pdir)
+                env = dict(env0)
+                env.update(menv)
+                rc, out, tags = run_tool(tool, arr, cache, ['sync'], env, timeout=30, opts=['--test-force-autosave-at', str(k)])
+                stats['variants'] += 1
+                descr = {'array': {'nd': arr.nd, 'np': arr.np, 'seed': arr.seed}, 'step': 'sync --test-force-autosave-at %d' % k, 'io_cache': cache, 'mode': mname}
+                if rc == 'timeout':
+                    chk.violation('hang_diff_autosave_%d_%d' % (k, cache), 'sync --test-force-autosave-at %d --test-io-cache %d does not terminate' % (k, cache), descr)
+                    return stats
+                cur_ = (rc, [t for t in tags if t.startswith(('error:', 'summary:'))], arr.snapshot())
+                if ref is None:
+                    ref = (cur_, cache, mname)
+                    if cur_ != base_:
+                        what = 'exit status' if cur_[0] != base_[0] else ('tags' if cur_[1] != base_[1] else ', '.join(x for x in cur_[2] if cur_[2][x] != base_[2][x]))
+                        chk.violation('diff_autosave_base_%d' % k, 'mono sync with an autosave at block %d and mono sync without autosave differ in %s' % (k, what), dict(descr, a=base_, b=cur_))
+                elif cur_ != ref[0]:
+                    what = 'exit status' if cur_[0] != ref[0][0] else ('tags' if cur_[1] != ref[0][1] else ', '.join(x for x in cur_[2] if cur_[2][x] != ref[0][2][x]))
+                    chk.violation('diff_autosave_state_%d_%d_%s' % (k, cache, mname),
+                                  'sync --test-force-autosave-at %d: %s differ between (--test-io-cache %d, %s) and (--test-io-cache %d, %s)' % (k, what, ref[1], ref[2], cache, mname),
+                                  dict(descr, a=ref[0], b=cur_))
+    return stats
+
+
 def build_tsan(snap):
     cflags = ['-O1', '-g', '-D' + GUARD, '-fsanitize=thread', '-fno-omit-frame-pointer']
     objs = _compile_many_tsan(snap, cflags)
@@ -828,6 +917,7 @@ def main(tier, replay=None):
         dstats['rehash'] = diff_rehash(chk, tool, shim, base, rng)
         dstats['scrub_touch'] = diff_scrub_touch(chk, tool, shim, base, rng)
         dstats['scrub_cross'] = diff_scrub_cross(chk, tool, shim, base, rng)
+        dstats['autosave'] = diff_autosave(chk, tool, shim, arrays[1 if len(arrays) > 1 else 0])
         if tier == 'thorough':
             for _ in range(4):
                 sub = os.path.join(base, 'more%d' % _)
@@ -850,6 +940,7 @@ def main(tier, replay=None):
                     'trace_events_replayed': tstats['events'] if tstats else 0,
                     'trace_sessions_rejected': tstats['rejected'] if tstats else 0,
                     'trace_sessions_with_early_stop': tstats['bailed_sessions'] if tstats else 0,
+                    'traces_with_several_ring_sessions': tstats.get('multi_session_traces', 0) if tstats else 0,
                     'spurious_wakeups_needed': tstats['spurious'] if tstats else 0,
                     'sessions_by_io_max': dict(tstats['by_cache']) if tstats else {},
                     'corpus_traces': len(corpus_lines),
